@@ -740,6 +740,11 @@ pub fn opreturn_payload_scripts() -> Vec<(String, Vec<u8>)> {
         ("separators", b"a;b,c\"d'e\tf|g".to_vec()),
         ("only-newline", b"\n".to_vec()),
         ("only-space", b" ".to_vec()),
+        // payloads with a meaning of their own in some chain: the BIP141 witness commitment (aa21a9ed + 32 bytes, in the coinbase
+        // of every block since segwit - also on the fork coins), the same header with 40 bytes, an Omni / counterparty prefix
+        ("witness-commitment", [&[0xaa, 0x21, 0xa9, 0xed][..], &[0x11; 32][..]].concat()),
+        ("witness-commitment-longer", [&[0xaa, 0x21, 0xa9, 0xed][..], &[0x22; 40][..]].concat()),
+        ("omni-prefix", b"omni\x00\x00\x00\x00\x00\x00\x00\x1f\x00\x00\x00\x02\x54\x0b\xe4\x00".to_vec()),
         ("trailing-spaces", b"fixed width     ".to_vec()),
         ("trailing-tab", b"abc\t".to_vec()),
         ("leading-and-trailing-space", b"  abc  ".to_vec()),
